@@ -13,7 +13,7 @@ META = dict(
     category="fault_enumeration",
     engine="Durability",
     technique="TLA+ spec Durability: TLC on the guarded effect machine + trace validation of real effect sequences + real kills at every hooked point judged against the model state",
-    text=("Durability.tla models a command as its sequence of durable effects with five ordering guards; TLC shows every "
+    text=("Durability.tla models a command as its sequence of durable effects with four ordering guards (head added only when the operation's and its view's objects are durable; head removed only under a descendant head; working-copy files touched only after every written operation is published; tree_state after the last file write and checkout after tree_state); TLC shows every "
           "guarded sequence is crash-safe in every state (Loadable, NoCommittedOpLost, BeforeOrAfter) and that dropping a "
           "guard breaks it. Binding: the real jj CLI (built with the cfg-gated points) runs representative commands on a "
           "prepared Git-backed workspace with a dirty working copy; JJ_VERIF_TRACE logs the real effect sequence, which TLC "
